@@ -324,6 +324,26 @@ func init() {
 
 	register("frame", "C19: Write* parameters (boundaries), read-back oracle, reader on written / mutated / random bytes with read limits", func(c *ctx) {
 		sids := []uint32{0, 1, 2, 3, 1<<31 - 1, 1 << 31, 1<<32 - 1, 77}
+		// reserved-bit / zero / maximum boundaries of every 32-bit field of the fixed-layout frames
+		for _, v := range []uint32{0, 1, 1<<31 - 1, 1 << 31, 1<<31 + 1, 1<<32 - 1} {
+			u := fmt.Sprintf("%08x", v)
+			for _, sid := range []uint32{0, 1, 1<<31 - 1} {
+				for _, raw := range []string{
+					fmt.Sprintf("8 0 %d %s", sid, u),                  // WINDOW_UPDATE increment
+					fmt.Sprintf("3 0 %d %s", sid, u),                  // RST_STREAM code
+					fmt.Sprintf("2 0 %d %s10", sid, u),                // PRIORITY dependency
+					fmt.Sprintf("7 0 %d %s00000000", sid, u),          // GOAWAY last stream id
+					fmt.Sprintf("4 0 %d 0004%s", sid, u),              // SETTINGS_INITIAL_WINDOW_SIZE
+					fmt.Sprintf("4 0 %d 0005%s", sid, u),              // SETTINGS_MAX_FRAME_SIZE
+					fmt.Sprintf("1 36 %d %s10", sid, u),               // HEADERS with PRIORITY (+END_HEADERS)
+					fmt.Sprintf("5 4 %d %s", sid, u),                  // PUSH_PROMISE promised id
+				} {
+					c.tag("write:RAW-boundary")
+					c.op("fwr RAW " + raw)
+					c.op("frdspec " + raw)
+				}
+			}
+		}
 		for i := 0; i < c.count; i++ {
 			r := c.rng.fork()
 			sid := sids[r.intn(len(sids))]
